@@ -26,6 +26,12 @@ NOTES = {
     "C10-6": "same mechanism as C02-6",
     "C08-6": "strengthened before the first run: 'trickle' cases (24+ messages, uninterrupted short ready writes, wake-driven executor) reach the 128 consecutive ready writes the change needs; lost wake-up detected without a clock",
     "C16-7": "would have been missed (1 in 2^29 random integers): strengthened before the first run - conversion stimuli at, just below and just above the midpoints between neighbouring f32/f64 values for every exponent",
+    "C17-7": "MISSED at first: the portable push workload never shrank an item, and size() was only compared with the serialiser for values built by pushes. The workload now also pops, truncates and edits inside items, and after every step copies as_bytes()[..size()] to an odd address where it must map to the same value ('can be mapped at any address')",
+    "C10-8": "would have been missed (the receive loop stopped at the first terminal outcome): strengthened before the first run - recv is called up to two more times after Closed / Parse / an unretried Read error; every call has to return",
+    "C16-8": "would have been missed (needs the operand pair (-2^31, -1) of the 64-bit types): strengthened before the first run - negative powers of two and their neighbours (the minima of the narrower types) are boundary operands of every integer type",
+    "C17-8": "would have been missed (only generated definitions were probed for `impl Portable`): strengthened before the first run - the autoref probe is applied to 45 concrete library types (FlatString/FlatVec/FlexVec/arrays/PhantomData over native and portable parameters); whatever implements Portable must have alignment 1",
+    "C04-8": "would have been missed by the quick tier (no fixed-zoo definition had a zero-sized field with an alignment in the middle): seven such definitions added to the fixed zoo before the first run",
+    "C20-8": "would have been missed by the quick tier (no default=true definition had an array of enums whose default is not all-zero bytes): four such definitions added to the fixed zoo before the first run",
     "C10-2": "first run reported through a stale oracle parameter (buffer capacity of the case vs. of the oracle); fixed, then caught as the panic it is",
 }
 
